@@ -24,7 +24,7 @@ ELEMENTS = ["ToCSV", "Write", "RenderLaTeX", "LaTeXToPDF", "PDFToPNG", "HistToGr
             "IterateBins", "RunIf", "MapGroup(map_scalars=False)"]
 BOUNDS = dict(vars(B), elements=ELEMENTS, meaning="every listed element; flows of <= N values = any "
               "interleaving (one symbolic bit per position) of values the element selects with values "
-              "it does not, the latter chosen by symbolic index among NF foreign values (number, tuple, "
+              "it does not (compared by identity AND against a deep snapshot taken before the run), the latter chosen by symbolic index among NF foreign values (number, tuple, "
               "(data, context) with unrelated context, user object, the element's disabling context such "
               "as output.write/to_csv False, a near-miss value)")
 FUNCTIONS = ["ToCSV.run", "Write.run", "RenderLaTeX.run", "LaTeXToPDF.run", "PDFToPNG.run",
@@ -146,8 +146,23 @@ def foreign(k, j, serial=0):
     return [(5, {"group": [{}]}), ([1, 2], {"grp": 1})][j - 4]
 
 
+def snap(v):
+    """A deep snapshot of a foreign value (to be compared with one taken after
+    the run: the very same object must also be left *unchanged*)."""
+    if isinstance(v, tuple) and len(v) == 2 and isinstance(v[1], dict):
+        return ("pair", snap(v[0]), copy.deepcopy(v[1]))
+    if isinstance(v, histogram):
+        return ("hist", copy.deepcopy(v.edges), copy.deepcopy(v.bins))
+    if isinstance(v, (Obj, Options)):
+        return ("obj", copy.deepcopy(vars(v)))
+    if isinstance(v, (list, tuple)):
+        return (type(v).__name__, [snap(x) for x in v])
+    return ("val", repr(v))
+
+
 def run_once(k, plan):
-    """plan: list of ('s', i) / ('f', j).  Returns (outputs, foreign objects in order, fs log)."""
+    """plan: list of ('s', i) / ('f', j).  Returns (outputs, foreign objects in
+    order, fs log, files, foreign values unchanged?)."""
     env = FakeJinjaEnv()
     env.templates["tpl.tex"] = "T"
     with world([write_mod, l2p_mod, p2p_mod], with_subprocess=True) as fs, quiet():
@@ -163,11 +178,13 @@ def run_once(k, plan):
                 foreigns.append(v)
                 flow.append(v)
         fs.log.append(("mark",))
+        before = [snap(v) for v in foreigns]
         el = make_element(k, env)
         out = list(el.run(iter(flow)))
+        unchanged = before == [snap(v) for v in foreigns]
         log = fs.log[fs.log.index(("mark",)) + 1:]
         files = fs.snapshot()
-    return out, foreigns, log, files
+    return out, foreigns, log, files, unchanged
 
 
 def norm(v):
@@ -202,7 +219,9 @@ def check_passthrough(k: int, mask: List[bool], fk: List[int]) -> bool:
                 if fk[i] == c:
                     j = c
             plan.append(("f", j))
-    out, foreigns, log, files = run_once(k, plan)
+    out, foreigns, log, files, unchanged = run_once(k, plan)
+    if not unchanged:
+        return h.ok(False)           # same object, but modified in place
     # unselected values: the very same objects, same relative order
     pos = 0
     rest = []
@@ -218,7 +237,7 @@ def check_passthrough(k: int, mask: List[bool], fk: List[int]) -> bool:
             return h.ok(False)
     # what is produced for the selected values does not depend on the foreign
     # ones; nor does what happens to the file system / converters
-    out2, _, log2, files2 = run_once(k, [p for p in plan if p[0] == "s"])
+    out2, _, log2, files2, _u = run_once(k, [p for p in plan if p[0] == "s"])
     if [norm(v) for v in rest] != [norm(v) for v in out2]:
         return h.ok(False)
     return h.ok(log == log2 and files == files2)
